@@ -32,6 +32,11 @@ type T struct {
 	IsInclude           bool
 	Round               string
 	Overloads           []T
+	// ArgScope is set on the second and later declarations of a configured
+	// method: their parameters are stored under this name instead of the
+	// method name, so that overloads do not share (and overwrite) the slot
+	// of a keyword they both declare
+	ArgScope string
 }
 
 func (t *T) DeepCopy() *T {
@@ -67,6 +72,7 @@ func (t *T) DeepCopy() *T {
 		IsExtend:            t.IsExtend,
 		Round:               t.Round,
 		IsStatic:            t.IsStatic,
+		ArgScope:            t.ArgScope,
 	}
 
 	if t.defineArgs != nil {
@@ -89,4 +95,13 @@ func (t *T) DeepCopy() *T {
 	}
 
 	return result
+}
+
+// ArgLookupName is the name the parameters of this method are stored under.
+func (t *T) ArgLookupName() string {
+	if t.ArgScope != "" {
+		return t.ArgScope
+	}
+
+	return t.GetMethodName()
 }
